@@ -52,16 +52,16 @@ CLAIMED = {
    "DESIGN.md §6 C15",
    "On/off differential on the implementation; Lean kernel for the proved part; model tied by V-line correspondence incl. raw call stacks and token sets.",
    "detail on/off differential + Lean 4 erasure theorem over the ParserState model"),
- "C08": ("other",
-   "Two ties: (1) ParserState::track / attempts_at / the sort-dedup epilogue are part of the proved-about ParserState model and the lowered VM model reproduces Vm::parse's error position and expected/unexpected sets on every failing case; (2) the property's own statement is written as specReport, a structural function of the call tree of the reference semantics (furthest reportable attempt; a failing or negated-matching rule stands for the attempts inside it at the same position unless exactly one was made), evaluated by the Lean model on the unoptimized grammar and compared with the real report. Soundness lemmas about specReport are being proved; track_eq_spec (model of track = specReport) is not proved, hence level other.",
-   "DESIGN.md §6 C08",
-   "specReport is the formalised property; differential against Vm::parse on all failing inputs up to a length bound; lister classified with hook H2.",
-   "Lean 4 specification of the report on the reference call tree + exhaustive-per-grammar differential against Vm::parse"),
- "C02": ("other",
-   "The code pest_generator emits is translated (syn AST -> call trees, failing loudly outside the generator's sub-language) and (a) compared AS A TREE, rule function by rule function, with the Lean transcription of generate_rule/generate_expr/generate_expr_atomic, (b) executed call by call on the real ParserState and compared with the Lean gen-lowering on the proved ParserState model, (c) compared with Vm::parse on all inputs up to a length bound (the property itself: identical pairs, error position and expected/unexpected sets), in two builds (default, grammar-extras). The equivalence theorem gen_eq_vm over the two lowerings is not yet proved, hence level other. Three genuine divergences/defects were found and fixed.",
-   "DESIGN.md §6 C02",
-   "rustc is not in the loop for the generated code; the translator gencode.rs is trusted; differential as strong as the generator.",
-   "translation of the emitted code to call trees: tree equality with the Lean generator model + execution against Vm::parse"),
+ "C08": ("proof",
+   "The property's statement is formalised as specReport, a structural function of the call tree of the reference semantics (furthest reportable attempt; a failing or negated-matching rule stands for the attempts inside it at the same position unless exactly one was made). Kernel-checked: spec_position_furthest, spec_position_attained, spec_expected_sound, spec_unexpected_sound (the specification has the properties the statement asks for) and track_eq_spec / track_eq_spec_exact: for every optimized grammar, start rule, input, fuel, detail setting, the failure report of the VM model — ParserState::track, rule, the look-ahead flags, the sort/dedup epilogue — is exactly specReport of the reference call tree (even as unsorted lists), under the side conditions of C01's refinement theorem. Ties: the VM model reproduces Vm::parse's error position and expected/unexpected sets on every failing case (V lines); specReport evaluated on the optimized rule set is compared with the real report for every failing parse of the run (about 54,000, no caveat), and specReport on the UNOPTIMIZED grammar for the lister classification.",
+   "DESIGN.md §6 C08, §13",
+   "Lean kernel (axioms propext/Classical.choice/Quot.sound); specReport is the formalised property; differential against Vm::parse on all failing inputs up to a length bound; lister classified with hook H2.",
+   "Lean 4 proof that the model of ParserState::track computes the specified report + exhaustive-per-grammar differential against Vm::parse"),
+ "C02": ("proof",
+   "The code pest_generator emits is translated (syn AST -> call trees, failing loudly outside the generator's sub-language) and (a) compared AS A TREE, rule function by rule function, with the Lean transcription of generate_rule/generate_expr/generate_expr_atomic, (b) executed call by call on the real ParserState and compared with the Lean gen-lowering on the proved ParserState model, (c) compared with Vm::parse on all inputs up to a length bound (the property itself: identical pairs, error position and expected/unexpected sets), in two builds, incl. tagged optional/repeated references with grammar-extras. Kernel-checked: gen_eq_vm_partial and gen_vm_terminate_partial — for every rule set satisfying GenVm.RulesOK (no #t = e? / #t = e*; in atomically generated rules the operand of every * fails clean; fewer than 333333334 rules), every start rule, input, detail setting and fuel, the generator's lowering and the VM's lowering yield the same report (token queue; error position and expected/unexpected sets; panic) and one terminates iff the other does — and gen_eq_vm_optimized: the conditions other than the tag shape hold for every output of the optimizer (the restorer makes repetition operands fail clean). The unrestricted statements are REFUTED (gen_eq_vm_refuted, _tag_rep, _pop, gen_vm_terminate_refuted); the two tag refutations are producible by the real front-end, were reproduced on the real VM and generated code, and are recorded as a known finding. Four genuine divergences/defects were fixed earlier.",
+   "DESIGN.md §6 C02, §13",
+   "Lean kernel for the two lowerings over the ParserState model; rustc is not in the loop for the generated code; the translator gencode.rs is trusted; differential as strong as the generator.",
+   "Lean 4 simulation proof between the generator's and the VM's lowering + translation of the emitted code to call trees (tree equality with the Lean generator model, execution against Vm::parse)"),
  "C16": ("proof",
    "The Unicode tables and all name lists are REGENERATED from the source on every run (translators/tr_unicode.py -> lean/PestModel/Gen/UnicodeTables.lean), so the theorems are re-checked against what the code says now: gc_partition (every scalar value is in exactly one of the 29 two-letter general categories), surrogate_no_scalar, group_eq_union (8 groups), scripts_disjoint — each a single kernel computation on 1.1M-bit numbers (decide +kernel, no native_decide) lifted to all code points by proved generic lemmas — plus names_agree (every advertised name resolves through by_name to the constant its function reads), validator_accepts, backend_builtins_agree. The translator's trie expansion is validated on every run by an EXHAUSTIVE correspondence: every advertised function and by_name closure on all 1,112,064 scalar values, and the VM built-in on the boundary code points. When an obligation fails the check searches the implementation for the offending code point.",
    "DESIGN.md §6 C16",
@@ -93,10 +93,10 @@ CLAIMED = {
    "round trip sampling with the abstract grammar as oracle; Lean kernel for the proved parts; regenerated meta-grammar.",
    "print/read round trip with random spellings + Lean 4 theorems on unescape / numbers / precedence stage"),
  "C06": ("proof",
-   "A Lean model of validate_ast (is_non_failing, is_non_progressing, validate_repetition / choices / whitespace_comment, left_recursion, tag checks) is compared with pest_meta's verdict — accepted, or the exact multiset of finding kinds and left-recursive rules — on thousands of near-miss grammars in two builds. Kernel-checked: validator_complete (every strictly guarded, well-named grammar is accepted), validator_sound_partial (an accepted stack-free grammar terminates under the reference semantics from every rule, mode, position: for all inputs) under two side conditions (no node tags without grammar-extras; no `!{}` rule reachable from WHITESPACE/COMMENT), and validator_sound_refuted: the unrestricted soundness statement is FALSE — WHITESPACE = _{ a }  a = !{ EOI ~ \"x\" } is accepted and diverges (cexWs_accepted, cexWs_diverges) — reproduced on the real front-end + VM (native stack overflow) and recorded as a known finding. On the implementation: accepted stack-free grammars are run in the VM on all short inputs in a child process under a time limit; grammars the implementation accepts although the model rejects them go through the same oracle (failing input for verdict mismatches); strictly guarded grammars must be accepted. Three genuine defects fixed (left-recursion gaps, tagged expressions unchecked, exponential search).",
+   "A Lean model of validate_ast (is_non_failing, is_non_progressing, validate_repetition / choices / whitespace_comment, left_recursion over (rule, skipping) pairs with the implicit WHITESPACE/COMMENT calls, tag checks) is compared with pest_meta's verdict — accepted, or the exact multiset of finding kinds and left-recursive rules — on thousands of near-miss grammars in two builds. Kernel-checked for every grammar and input: validator_sound_partial (an accepted stack-free grammar terminates under the reference semantics from every rule, mode and position; only side condition: no node tags when grammar-extras is off, which the real front-end cannot produce), validator_sound_extras (no side condition with grammar-extras), validator_complete (every strictly guarded, well-named grammar is accepted), with the full statement kept as ValidatorSoundStmt and refuted only by the hand-built tag AST (validator_sound_refuted_tag). The proof attempts found two real soundness gaps (WHITESPACE = _{ a }  a = !{ EOI ~ \"x\" }; WHITESPACE = _{ a ~ \"y\" }  a = !{ \"x\"{,2} }: accepted, native stack overflow), both reproduced on the real front-end + VM, FIXED in the validator (6bb90d0, 3c20b74), mirrored in the model (cexWs_rejected, cexRep_rejected) and the side condition removed. On the implementation: accepted stack-free grammars are run in the VM on all short inputs in a child process under a time limit; grammars the implementation accepts although the model rejects them go through the same oracle; strictly guarded grammars must be accepted. Five genuine defects fixed in all.",
    "DESIGN.md §6 C06, §13",
    "Lean kernel for the validator model vs the reference semantics; verdict correspondence through the real front-end; termination observed (time limit) on the implementation.",
-   "Lean 4 validator model with soundness (partial, full form refuted) and completeness theorems + verdict correspondence on near-miss grammars + child-process termination oracle"),
+   "Lean 4 validator model with soundness and completeness theorems + verdict correspondence on near-miss grammars + child-process termination oracle"),
 }
 REASON_TODO = "not claimed yet: machinery for this property is not built in the committed tree (planned in DESIGN.md §6); no check is registered rather than an unsound one"
 
